@@ -39,6 +39,13 @@ class _Return(Exception):
         self.value = value
 
 
+class StopAfter(Exception):
+    """Interpretation was asked to end after a given statement; carries the local environment."""
+
+    def __init__(self, env):
+        self.env = env
+
+
 class _Break(Exception):
     pass
 
@@ -176,6 +183,7 @@ class Interp:
         self.call_hooks: list = []  # fn(interp, callee, args, kwargs) -> value | NotImplemented
         self.ext_fallback = None  # fn(interp, name, args, kwargs) -> value | NotImplemented
         self.trace_calls: list[str] = []
+        self.stop_after: set = set()  # id(statement node): interpretation ends after it (prefix slicing)
         self.assumptions: list[str] = []
         self.field_helpers = {"field", "frozen_field", "private_field", "frozen_private_field"}
         from . import extlib
@@ -559,7 +567,10 @@ class Interp:
         m = getattr(self, "s_" + type(st).__name__, None)
         if m is None:
             raise AnalysisError(f"unsupported statement {type(st).__name__} at line {st.lineno}")
-        return m(st, env)
+        r = m(st, env)
+        if self.stop_after and id(st) in self.stop_after:
+            raise StopAfter(env)
+        return r
 
     def s_Expr(self, st, env):
         if isinstance(st.value, ast.Constant):
